@@ -256,6 +256,58 @@ def assembled(ctx, bad):
             continue
         if mo["limbs"] != res["limbs"] or mo["triangles"] != res["triangles"] or mo["output_size"] != res["output_size"]:
             ctx.violation("limb / triple index lists or the advertised size differ from the model's", info, {"model": mo, "impl": {k: res[k] for k in ("limbs", "triangles", "output_size")}}, False)
+    # ---- end to end: the whole output tensor against the Lean model `poseRepresentation` (Float), entry by entry
+    freqs = []
+    for info, res in layout_meta:
+        case = info["case"]
+        B, L, N, C = case["shape"]
+        data = np.array(case["data"], dtype=np.uint32).view(np.float32).astype(np.float64)
+        freqs.append({"op": "rep_forward", "components": [{"name": pc.hx(c["name"]), "format": pc.hx(c["format"]), "points": [pc.hx(p) for p in c["points"]], "limbs": c["limbs"], "colors": [[255, 0, 0]]}
+                                                            for c in case["header"]["components"]],
+                      "n1": len(case["modules"][0]), "m2": case["modules"][1], "m3": case["modules"][2], "shape": case["shape"],
+                      "data": [f64_bits(float(x)) for x in data], "valid": [int(x) for x in case["valid"]]})
+    for (info, res), mo in zip(layout_meta, ctx.driver.run(freqs) if freqs else []):
+        if "error" in res:
+            continue
+        case = info["case"]
+        ctx.count("model_forward")
+        if not mo.get("ok"):
+            ctx.violation("the model's constructor refuses a header the implementation accepts", info, {}, False); continue
+        if mo["shape"] != res["shape"]:
+            ctx.violation("the assembled output's shape differs from the model's", info, {"model": mo["shape"], "impl": res["shape"]}, False); continue
+        B, L, N, C = case["shape"]
+        got = reprexec.unb(res["values"], res["shape"]); mv = np.array([bits_f64(x) for x in mo["values"]]).reshape(mo["shape"])
+        data = np.array(case["data"], dtype=np.uint32).view(np.float32).astype(np.float64).reshape(B, L, N, C)
+        valid = np.array(case["valid"], dtype=bool).reshape(B, L, N)
+        l1, l2, t1, t2, t3 = expected_indexes(case["header"])
+        cols = []                                                              # per output column: (tolerance, points involved)
+        for _ in case["modules"][0]:
+            cols += [(0.0, (n,)) for n in range(N) for _c in range(C)]
+        for name in case["modules"][1]:
+            cols += [(TOLS[name], (a, b)) for a, b in zip(l1, l2)]
+        for name in case["modules"][2]:
+            cols += [(TOLS[name], (a, b, c)) for a, b, c in zip(t1, t2, t3)]
+        if len(cols) != got.shape[2]:
+            continue                                                           # size clause already reported above
+        for e, (tol, pts_) in enumerate(cols):
+            ok = np.ones((B, L), dtype=bool)
+            for n in pts_:
+                ok &= valid[:, :, n]
+            if len(pts_) == 1:
+                regular = np.ones((B, L), dtype=bool)
+            elif len(pts_) == 2:
+                regular = (data[:, :, pts_[0]] != data[:, :, pts_[1]]).any(axis=-1)
+                if info["backend"] == "tf":                                     # a vertical limb is a degenerate input: tensorflow divides with divide_no_nan (0), torch / the model give atan(±inf)
+                    regular &= data[:, :, pts_[0], 0] != data[:, :, pts_[1], 0]
+            else:
+                u = data[:, :, pts_[0]] - data[:, :, pts_[1]]; w = data[:, :, pts_[2]] - data[:, :, pts_[1]]
+                regular = ((u * u).sum(-1) * (w * w).sum(-1) - (u * w).sum(-1) ** 2) > 1e-9       # neither coincident nor collinear (NaN → 0 decisions there depend on float32 rounding)
+            g, m = got[:, :, e], mv[:, :, e]
+            if ((g != 0) | (m != 0))[~ok].any():
+                ctx.violation("an entry of the assembled output is not 0 although one of its points is missing (implementation or model)", dict(info, column=e), {"impl": g[~ok][:4].tolist(), "model": m[~ok][:4].tolist()}, False); break
+            cmp = ok & regular
+            if not np.allclose(g[cmp], m[cmp], rtol=tol, atol=tol, equal_nan=True):
+                ctx.violation("an entry of the assembled output differs from the model's", dict(info, column=e), {"impl": g[cmp][:4].tolist(), "model": m[cmp][:4].tolist(), "points": list(pts_)}, False); break
 
 
 def check_assembled(ctx, bad, info, res, tf_direct=None):
